@@ -51,10 +51,19 @@ def weightedSums (ak : List F) (Rk : List (List F)) (nSel : Nat) : List F :=
 
 /-- `SourceWeightedPDFRatio.get_ratio`: `ak` the weights of the `K` sources in this dataset, `Rk` the
 `K` per-source lists of per-event ratios (`0` where the pair is not selected), `nSel` events.
-`if A > 0: R_i /= A` — a dataset in which no source has any yield keeps the (zero) numerators instead
-of dividing `0/0`. -/
+`if A != 0: R_i /= A` — a dataset in which no source has any yield keeps the (zero) numerators instead
+of dividing `0/0`; any other total (also a negative one) normalises.  (`A != 0` is written with the
+order, `0 < A ∨ A < 0`, because IEEE doubles have no decidable equality in Lean.) -/
 def ratioWeighted [LT F] [DecidableLT F] (ak : List F) (Rk : List (List F)) (nSel : Nat) : List F :=
-  if 0 < sumF ak then (weightedSums ak Rk nSel).map (· / sumF ak) else weightedSums ak Rk nSel
+  if 0 < sumF ak ∨ sumF ak < 0 then (weightedSums ak Rk nSel).map (· / sumF ak)
+  else weightedSums ak Rk nSel
+
+/-- the dense `K × nSel` table of per-(source, event) values behind the flat values array of the
+code (`src_idxs`, `evt_idxs`, values): entry `(k, i)` is the sum of the values of all pairs `(k, i)`
+(there is at most one), `0` where the event selection produced no such pair -/
+def densify (K nSel : Nat) (src evt : List Nat) (vals : List F) : List (List F) :=
+  (List.range K).map (fun k => (List.range nSel).map (fun i =>
+    sumF (((List.zip (List.zip src evt) vals).filter (fun p => p.1.1 == k && p.1.2 == i)).map (·.2))))
 
 /-- the specification: weighted mean of the per-source ratios of event `i` -/
 def weightedMeanAt (ak : List F) (Rk : List (List F)) (i : Nat) : F :=
